@@ -136,14 +136,19 @@ def relational(ctx, c):
     rng = ctx.rng
     lib = info.lib
 
-    def ses(mapping):
-        e = lib.Estimate(dict(mapping), c.set)
+    def ses(mapping, **how):
+        try:
+            e = lib.Estimate(dict(mapping), c.set)
+        except Exception as ex:
+            ctx.violation('Estimate raises on a permuted / scaled copy of a mapping it accepts', dict(c.input, **how),
+                          expected='an estimate', observed=type(ex).__name__)
+            return None, None
         return {p: L.value_out(lambda m=m: getattr(e, m + '_SE')(T), 'se', info, [], ()) for p, m in SE_GET}, e
     ctx.count('relational')
     base = c.impl['ok']['se']
     m2 = list(c.mapping)
     rng.shuffle(m2)
-    s2, e2 = ses(m2)
+    s2, e2 = ses(m2, permuted=[str(g) for g, _ in m2])
     # a common factor on all counts: an ordinary one, a tiny one and a huge one (an absolute threshold, a rounding to a fixed
     # number of decimals or a clip anywhere between x'Mx and the returned number shows only far from the scale of ordinary counts);
     # powers of two where the library is compared exactly
@@ -157,7 +162,9 @@ def relational(ctx, c):
         factors.insert(0, float(c.input['factor']))
     for k in factors:
         ctx.count('relational_factor_' + ('zero' if k == 0 else 'tiny' if abs(k) < 1e-2 else 'huge' if abs(k) > 1e2 else 'ordinary'))
-        s3, e3 = ses([(g, n * k) for g, n in c.mapping])
+        s3, e3 = ses([(g, n * k) for g, n in c.mapping], factor=k)
+        if s3 is None:
+            continue
         for p, _ in SE_GET:
             a = base[p]
             if a[0] != 'ok' or math.isnan(float(a[1])):
@@ -170,7 +177,7 @@ def relational(ctx, c):
                                   dict(c.input, factor=k, property=p), abs(k) * float(a[1]), s3[p])
     for p, _ in SE_GET:
         a = base[p]
-        if a[0] != 'ok' or math.isnan(float(a[1])):
+        if s2 is None or a[0] != 'ok' or math.isnan(float(a[1])):
             continue        # nan only arises from a negative radicand (indefinite synthetic matrix); the oracle has judged it
         if s2[p][0] != 'ok' or float(s2[p][1]) != float(a[1]):
             ctx.violation('SE depends on the order of the mapping', dict(c.input, permuted=[str(g) for g, _ in m2], property=p), a, s2[p])
